@@ -120,7 +120,7 @@ class FrameItem(EFLRItem):
                                    f"for {index_channel} of {self}")
             spacing, direction = self._compute_spacing_and_direction(index_data)
 
-            if spacing is None:
+            if spacing is None and index_data.shape[0] > 1:
                 # spacing cannot be used because it is not uniform enough; using only direction - if available
                 m = (f"Spacing of the index channel of {self} is not uniform; this can cause issues in some viewer "
                      f"software. Consider implicit indexing by row number number instead "
@@ -143,7 +143,11 @@ class FrameItem(EFLRItem):
             If direction cannot be determined, it is assigned to None.
         """
 
-        diff = np.diff(index_data)
+        if index_data.shape[0] < 2:
+            return None, None  # a single row: there are no differences to compute spacing or direction from
+
+        # differences are computed on floats: for (unsigned or narrow) integer types they could wrap around
+        diff = np.diff(index_data.astype(np.float64))
         diff_unique = np.unique(diff)
 
         if (diff_unique == 0).all():
